@@ -215,6 +215,16 @@ func (c *Ctx) applyContractSig(st *State, x *ast.CallExpr, pk *Pkg, sig *types.S
 		}
 		c.oblige(st, "call", label, x.Pos(), goal, cl.Text)
 	}
+	// a callee declared "opt may-panic" may leave through a panic instead of returning: that path jumps to the end
+	// of the running frame (where deferred functions run) with the exceptional-exit flag set and no effects applied
+	if fc.Opts["may-panic"] != "" && c.fr != nil {
+		p := c.declare("panics", SBool)
+		ps := st.clone()
+		ps.assume(c, p)
+		ps.ghosts["$panic"] = Scalar{TTrue, tBool}
+		c.fr.retStates = append(c.fr.retStates, &retState{ps})
+		st.assume(c, Not(p))
+	}
 	// havoc the modifies footprint
 	for _, cl := range fc.Modifies {
 		for _, t := range c.modTargets(env, cl) {
@@ -373,8 +383,26 @@ func (c *Ctx) inlineBodyFC(st *State, ft *ast.FuncType, body *ast.BlockStmt, rec
 		st.pc = TFalse
 		return c.deadValue(sig)
 	}
+	// a panic that no deferred recover() cleared propagates into the caller's frame
+	if pf := c.panicFlag(end); pf.S != "false" && saved != nil {
+		ps := end.clone()
+		ps.assume(c, pf)
+		if !ps.dead() {
+			saved.retStates = append(saved.retStates, &retState{ps})
+		}
+		end.assume(c, Not(pf))
+		end.ghosts["$panic"] = Scalar{TFalse, tBool}
+	}
 	*st = *end
 	return c.resultValue(st)
+}
+
+// panicFlag is the exceptional-exit flag of a state (a callee with "opt may-panic" may set it).
+func (c *Ctx) panicFlag(st *State) Term {
+	if v, ok := st.ghosts["$panic"].(Scalar); ok {
+		return v.T
+	}
+	return TFalse
 }
 
 func (c *Ctx) deadValue(sig *types.Signature) Val {
